@@ -439,7 +439,7 @@ def depslog(pid, tier, replay):
     q = tier == "quick"
     return _log_check(pid, tier, replay, "dlog", "DepsLog.tla",
                       "SPECIFICATION Spec\nCONSTANT MaxOps = %d\nINVARIANT TableIsHistory\nINVARIANT ReloadAgrees\nCHECK_DEADLOCK FALSE\n" % (4 if q else 6),
-                      "DepsLogTrace", [("tear1", 2 if q else 6), ("tear2", 2 if q else 6), ("damage", 2 if q else 6), ("recompact", 3 if q else 8)],
+                      "DepsLogTrace", [("tear1", 2 if q else 6), ("tear2", 2 if q else 6), ("damage", 2 if q else 6), ("recompact", 3 if q else 8), ("recompact2", 2 if q else 6)],
                       40 if q else 600, {"C09"})
 
 
